@@ -10,6 +10,14 @@ CHECKS = {
    text="Bounded exhaustive symbolic check: for every real-valued signal up to the length bound and every two-way split of every prefix (flush on/off) the three detectors produce equal outputs AND equal complete internal state, which by induction over chunks covers every partition; chunk bookkeeping checked for every reported index; all partitions additionally enumerated directly for short signals.",
    note="Bound: signal length <= 5 (quick) / 8 (thorough). Floats modelled as reals. Cython kernels executed as a mechanical Python translation of the current .pyx text, tied to the binary by per-path witness replay against a module compiled from the same text. Trusted: z3, numpy/pandas object-dtype semantics (validated by the witness replays), the translator.",
    design="6 C01"),
+ "C02": dict(
+   text="Bounded exhaustive symbolic check against executable definitions: for every real-valued signal up to the length bound (every tie pattern of samples and ranges is a path) find_turns equals the turning-point definition, the four-point detector equals the textbook stack rule (cycles in order with indices, residual), the three-point detector yields the same multiset and residual, the FKM detector equals the Clormann/Seeger HCM rule; every turning point is used exactly once and every index addresses its value.",
+   note="Bound: signal length 2..6 (quick) / 2..8 (thorough), process() without flush. Oracles in pvx/oracles/rainflow.py are part of the trusted base. Floats as reals; kernels via translation + witness replay on a module compiled from the current .pyx.",
+   design="6 C02"),
+ "C03": dict(
+   text="Bounded exhaustive symbolic check of relations between runs of the real detectors: refinement by interior non-reversal samples (values symbolic between neighbours, inclusive), negation, positive affine map (symbolic offset, scale from a finite set), NaN removal with index correction (all interior NaN placements up to the bound), Series with five index types vs. plain array.",
+   note="Bounds: base length 3..5 + 1 inserted sample (quick) / 3..6 + 1 and 3..4 + 2 (thorough); negation/affine length 2..5 / 2..7; NaN: length 4..5 / 4..6 with <= 2 NaN; scale in {0.5, 2, 3, 1000}. Floats as reals.",
+   design="6 C03"),
 }
 NA = {
  "C06": "subject is convergence/accuracy of scipy Newton/secant iterations on equations with real-exponent powers: no SMT theory for x**y, cos, log or for float iteration convergence; stubbing the power removes the subject",
